@@ -16,6 +16,8 @@ from sa.props import PROPS                          # noqa: E402
 
 def run_one(prop_id, tier, seed, repo, quiet=False):
     t0 = time.time()
+    for k in oracle.stats:
+        oracle.stats[k] = 0
     spec = PROPS[prop_id]
     program = Program(repo)
     roles = Roles(program)
